@@ -600,6 +600,244 @@ def w_kib(ctx, task):
                     'wire_head': ref_enc(secret, out_plain)[:16]})
 
 
+# -- part A-seg: the UNDERLYING transport returns short reads ------------------
+
+class _SegStream(object):
+    """Raw byte source whose data arrived in segments: one call hands out at
+    most the rest of the current segment (what an unbuffered socket file,
+    makefile('rb', 0), and socket.recv do), never more than asked."""
+    __slots__ = ('buf', 'pos', 'ends', 'si', 'short', 'calls')
+
+    def __init__(self, buf, segs):
+        self.buf, self.pos, self.si = buf, 0, 0
+        self.short = self.calls = 0
+        ends, e = [], 0
+        for k in segs:
+            e += k
+            ends.append(e)
+        if e != len(buf):
+            raise ToolError('segmentation %r does not cover %d bytes'
+                            % (segs, len(buf)))
+        self.ends = ends
+
+    def take(self, n):
+        self.calls += 1
+        if n <= 0:
+            return b''
+        ends = self.ends
+        while self.si < len(ends) and self.pos >= ends[self.si]:
+            self.si += 1
+        if self.si >= len(ends):
+            return b''
+        p = self.pos
+        k = min(n, ends[self.si] - p)
+        self.pos = p + k
+        if k < n and self.pos < len(self.buf):
+            self.short += 1         # short although more bytes follow
+        return self.buf[p:p + k]
+
+
+def exec_seg(E, secret, in_plain, segs, asks, style):
+    """The caller wants asks[0], asks[1], ... bytes and, like
+    PacketReactor.read_packet, repeats a request for the missing rest until
+    it is filled or a call returns nothing (end of stream).  The raw object
+    under the wrappers returns short reads according to `segs`.
+    -> (None | (kind, text), number of short raw reads, wrapper calls)."""
+    stream = _SegStream(ref_enc(secret, in_plain), segs)
+    have = ncall = 0
+    try:
+        sock, fobj = install(E, secret, _RawSock(stream), _RawFile(stream))
+        for k in asks:
+            filled = 0
+            eof = False
+            while filled < k:
+                kind = style if style != 'x' else 'rv'[ncall & 1]
+                ask = k - filled
+                got = fobj.read(ask) if kind == 'r' else sock.recv(ask)
+                ncall += 1
+                name = '%s(%d)' % ('file.read' if kind == 'r'
+                                   else 'socket.recv', ask)
+                if not isinstance(got, (bytes, bytearray)):
+                    return (('in.seg type', 'receive call #%d %s returned '
+                             '%s' % (ncall, name, _short(got))),
+                            stream.short, ncall)
+                if len(got) > ask:
+                    return (('in.seg more than asked',
+                             'receive call #%d %s returned %d bytes: %s'
+                             % (ncall, name, len(got), _short(got))),
+                            stream.short, ncall)
+                if bytes(got) != in_plain[have:have + len(got)]:
+                    return (('in.seg.' + {'r': 'read', 'v': 'recv'}[kind],
+                             'receive call #%d %s returned %s; the '
+                             'reference CFB8 decryption of the ciphertext '
+                             'stream continues at offset %d with %s (the '
+                             'raw object had handed out %d of %d ciphertext '
+                             'bytes, %d of its reads were short)'
+                             % (ncall, name, _short(got), have,
+                                in_plain[have:have + max(len(got), 1)][:24]
+                                .hex(), stream.pos, len(in_plain),
+                                stream.short)),
+                            stream.short, ncall)
+                if not got:
+                    eof = True
+                    break
+                filled += len(got)
+                have += len(got)
+            if eof:
+                break
+    except Exception as e:
+        return (('in.seg exception', 'the wrappers raised %s: %s'
+                 % (type(e).__name__, e)), stream.short, ncall)
+    want = min(sum(asks), len(in_plain))
+    if have != want:
+        return (('in.seg lost', 'the caller asked for %d bytes in total, the '
+                 'stream has %d, but only %d were returned before a receive '
+                 'call came back empty' % (sum(asks), len(in_plain), have)),
+                stream.short, ncall)
+    return None, stream.short, ncall
+
+
+def _case_seg(tag, sname, secret, in_plain, segs, asks, style):
+    return {'part': 'A-seg', 'tag': tag, 'secret_name': sname,
+            'secret': secret, 'in_plain': in_plain, 'segs': list(segs),
+            'asks': list(asks), 'style': style}
+
+
+def _judge_seg(coll, tag, E, sname, secret, in_plain, segs, asks, style):
+    """-> (ok, short raw reads)."""
+    res, short, ncall = exec_seg(E, secret, in_plain, segs, asks, style)
+    if res is None:
+        return True, short
+    kind, text = res
+    rank = (len(in_plain), len(segs) + len(asks), sname, list(segs),
+            list(asks), style)
+    coll.add('A.%s %s' % (tag, kind), rank,
+             'secret %s (%s), in stream %s (reference ciphertext %s) '
+             'arriving in segments %r, caller asks for %r bytes (repeating a '
+             'request for the rest until filled), receive style %s: %s'
+             % (sname, secret.hex(), in_plain[:24].hex(),
+                ref_enc(secret, in_plain)[:24].hex(), _clip(segs),
+                _clip(asks), {'r': 'file.read', 'v': 'socket.recv',
+                              'x': 'read/recv alternating'}[style], text),
+             _case_seg(tag, sname, secret, in_plain, segs, asks, style))
+    return False, short
+
+
+def _clip(parts):
+    parts = list(parts)
+    return parts if len(parts) <= 12 else parts[:12] + ['...']
+
+
+SEG_SHORT = 'A-seg: underlying short read (the raw object returned fewer ' \
+    'bytes than asked although more follow)'
+SEG_SPAN = 'A-seg: one request spans two or more segments'
+SEG_ALIGNED = 'A-seg: every request is satisfied by one raw read'
+
+
+def w_seg(ctx, task):
+    """ALL segmentations of the ciphertext x ALL compositions of the
+    caller's requests x 3 receive styles for one (secret, content, n)."""
+    import collections
+    si, pi, n, over = task
+    E = env()
+    sname, secret = secrets_for(ctx.seed)[si]
+    in_plain = content(PAIRS[pi][1], n, ctx.seed)
+    coll = _Coll()
+    cls = collections.Counter()
+    ncase = nshort = bad = 0
+    comps = list(compositions(n))
+    for segs in comps:
+        for asks in comps:
+            if over:
+                asks = asks[:-1] + (asks[-1] + 3,)
+            for style in 'rvx':
+                ok, short = _judge_seg(coll, 'seg', E, sname, secret,
+                                       in_plain, segs, asks, style)
+                ncase += 1
+                bad += not ok
+                if short:
+                    nshort += 1
+                    cls[SEG_SHORT] += 1
+                    if len(segs) > 1 and len(asks) > 1:
+                        cls['A-seg: short raw reads and two or more '
+                            'requests'] += 1
+                else:
+                    cls[SEG_ALIGNED] += 1
+            if over:
+                cls['A-seg: last request asks for 3 bytes more than the '
+                    'stream has (ends with an empty read)'] += 3
+    ctx.count(ncase)
+    ctx.note_distinct(nshort)
+    for k, v in cls.items():
+        ctx.cls(k, v)
+    ctx.cls('A-seg stream length %d' % n, ncase)
+    ctx.outcome('A-seg ok', ncase - bad)
+    for k, v in coll.n.items():
+        ctx.outcome('A-seg FAIL ' + k, v)
+    coll.flush(ctx)
+    if (si, pi, n, over) == (2, 0, 4, 0):
+        ctx.sample({'part': 'A-seg', 'secret': secret, 'in_plain': in_plain,
+                    'ciphertext': ref_enc(secret, in_plain),
+                    'segmentations': len(comps), 'request_splits':
+                    len(comps), 'styles': 3, 'cases': ncase})
+
+
+def seg_kib_cases(ctx, size):
+    """-> list of (segs, asks): big streams in few segments."""
+    out = []
+    step = 1 if (ctx.thorough or size == 1024) else 3
+    frames = ((size,), (1, 1, size - 2), (2, size - 2), (size - 1, 1))
+    for i, c in enumerate(range(1, size, step)):
+        out.append(((c, size - c), frames[i % len(frames)]))
+    g = kib_grid(ctx, size)
+    k = 0
+    for i in range(len(g)):
+        for j in range(i + 1, len(g)):
+            out.append((_parts(size, (g[i], g[j])), frames[k % len(frames)]))
+            k += 1
+    for mss in (1, 16, 17, 536, 1460):
+        if mss < size:
+            segs = (mss,) * (size // mss)
+            if size % mss:
+                segs += (size % mss,)
+            for asks in frames:
+                out.append((segs, asks))
+            # requests that straddle every segment boundary
+            q = mss + 1
+            asks = (q,) * (size // q)
+            if size % q:
+                asks += (size % q,)
+            out.append((segs, asks))
+    return out
+
+
+def w_seg_kib(ctx, task):
+    si, size, shard, nshard = task
+    E = env()
+    sname, secret = secrets_for(ctx.seed)[si]
+    in_plain = content('seeded', size, ctx.seed + 1)
+    coll = _Coll()
+    n = bad = nshort = 0
+    for idx, (segs, asks) in enumerate(seg_kib_cases(ctx, size)):
+        if idx % nshard != shard:
+            continue
+        ok, short = _judge_seg(coll, 'seg-kib', E, sname, secret, in_plain,
+                               segs, asks, 'rvx'[idx % 3])
+        n += 1
+        bad += not ok
+        if short:
+            nshort += 1
+            ctx.cls(SEG_SHORT)
+        ctx.cls('A-seg KiB: %d bytes in %s segments' % (
+            size, len(segs) if len(segs) <= 3 else 'many'))
+    ctx.count(n)
+    ctx.note_distinct(nshort)
+    ctx.outcome('A-seg-KiB ok', n - bad)
+    for k, v in coll.n.items():
+        ctx.outcome('A-seg-KiB FAIL ' + k, v)
+    coll.flush(ctx)
+
+
 # -- part B ------------------------------------------------------------------
 
 def token_bytes(pattern, n):
